@@ -46,7 +46,7 @@ def generate(seed, tier):
         ops = [["env_reset"]] + [["env_step", rng.randrange(64), rng.randrange(64), int(rng.random() < 0.3), int(rng.random() < 0.5)] for _ in range(min(n, 12))]
         return {"prop": PROP, "kind": "env", "cfg": cfg, "ops": ops, "arg_seed": rng.randrange(1 << 30)}
     names, style = gen_filter(rng, None, p_none=0.5)
-    spec = gen_instance(rng, max_jobs=4, max_machines=4, max_ops=4, positive=True if names else None)
+    spec = gen_instance(rng, sparse_ids=0.03, max_jobs=4, max_machines=4, max_ops=4, positive=True if names else None)
     n = n_ops(spec)
     ops = [["dispatch", rng.randrange(64), rng.randrange(64), int(rng.random() < 0.5)] for _ in range(n if rng.random() < 0.7 else rng.randint(0, n))]
     return {"prop": PROP, "kind": "dispatch", "cfg": {"instance": spec, "filter": names, "filter_style": style, "observers": zoo(rng)},
